@@ -393,9 +393,14 @@ void run_view(Case const& c, std::ostream& out, unsigned flags, bool is_xml) {
 		walk(v, ad);
 		for(T* p : ad) { saved.push_back(*p); }
 		OA oa(ss, flags);
-		if constexpr(D >= 2) {
+#ifdef HS_NO_CONST1D
+		constexpr bool const_ok = (D >= 2);   // saving a read-only 1-D view does not compile on this tree (reported by the probe)
+#else
+		constexpr bool const_ok = true;
+#endif
+		if constexpr(const_ok) {
 			if(c.sconst) {
-				multi::const_subarray<T, D, T*> const& cv = v;  // array_ref.hpp:1867
+				multi::const_subarray<T, D, T*> const& cv = v;  // array_ref.hpp:1867 (D >= 2), :3283 (D = 1): a view of a const array
 				oa << boost::serialization::make_nvp("view", cv);
 				return;
 			}
